@@ -217,6 +217,30 @@ def build(case):
         exp.append((name, "S%d" % i, clause))
         return r["Field"](name, table=tbl(i))
 
+    import zlib as _z
+    ff = case.get("ff") or ["eq", "in-list", "in-list-second", "between-bound", "fn-arg", "arith", "tuple", "case-result", "notin-list"][
+        _z.crc32(repr(sorted((k_, repr(v_)) for k_, v_ in case.items() if not k_.startswith("_"))).encode()) % 9]
+
+    def foreign_crit(fa, fb, swapped=False):
+        """The criterion that names the foreign table: the reference sits wherever a term may sit (the only one naming that table)."""
+        if ff == "in-list":
+            return fb.isin([fa, 5])
+        if ff == "in-list-second":
+            return fb.isin([1, 2, fa])
+        if ff == "notin-list":
+            return fb.notin((fa, 7))
+        if ff == "between-bound":
+            return fb.between(0, fa)
+        if ff == "fn-arg":
+            return fb == fn("Coalesce")(fa, 0)
+        if ff == "arith":
+            return fb > fa + 1
+        if ff == "tuple":
+            return r["Tuple"](fb, 1) == r["Tuple"](fa, 1)
+        if ff == "case-result":
+            return fb == r["Case"]().when(fb > 1, fa).else_(0)
+        return (fb == fa) if swapped else (fa == fb)
+
     def pick():
         return rnd.randrange(len(sources)) if case.get("rnd") is not None and len(sources) > 1 else 0
     # ---- clauses
@@ -228,13 +252,13 @@ def build(case):
         # the criterion naming the foreign table comes first or last among the where() calls (case["order"])
         if foreign is not None and case["order"] == 1:
             a = c.col()
-            q = q.where(r["Field"](a, table=foreign) == F(0, "where"))
+            q = q.where(foreign_crit(r["Field"](a, table=foreign), F(0, "where")))
             exp.append((a, "FOREIGN", "where"))
         q = q.where(F(0, "where") > 1).where(F(pick(), "where").isin([1, 2]))
         if foreign is not None and case["order"] == 0:
             a = c.col()
             fa, fb = r["Field"](a, table=foreign), F(0, "where")
-            q = q.where(fb == fa)
+            q = q.where(foreign_crit(fa, fb, swapped=True))
             exp.append((a, "FOREIGN", "where"))
         q = q.groupby(F(0, "groupby"), F(pick(), "groupby")).having(fn("Count")(F(pick(), "having")) > 1).orderby(F(0, "orderby"), F(pick(), "orderby"))
         # a select alias that is also the name of a column of a source: ORDER BY <source>.<name> means the column
@@ -297,6 +321,11 @@ def build(case):
         if DIALECT_OF[d] != "mysql":  # ON DUPLICATE KEY UPDATE has no conflict target
             exp.append((oc, "ALIASED-ONLY-S0", "on-conflict-target"))
         exp.append((ou, "ALIASED-ONLY-S0", "on-conflict-update"))
+        # an assignment without a value takes the proposed row's column (EXCLUDED.col / VALUES(col)): target and source column
+        # are the insert table's, whatever the feeding SELECT looks like
+        ou2 = c.col()
+        q = q.do_update(r["Field"](ou2, table=tbl(0)))
+        exp.append((ou2, "ALIASED-ONLY-S0", "on-conflict-update-proposed"))
         if d == "PostgreSQLQuery":
             q = q.returning(F(0, "returning"))
     if kind in ("update", "delete") and d == "PostgreSQLQuery":
